@@ -87,6 +87,8 @@ type CScenario struct {
 	// Garbage lists keys whose stored attestation record cannot be decoded when the requests arrive (a damaged record):
 	// requests naming such a key fail, and must still come back.
 	Garbage []int `json:"garbage,omitempty"`
+	// TwoWallets puts the keys with odd index into a second wallet (all others: one wallet).
+	TwoWallets bool `json:"two_wallets,omitempty"`
 }
 
 // keyRange returns the key indices lo..hi-1.
@@ -208,6 +210,16 @@ func fmtVerdicts(v []bool) string {
 
 var concCreds = &checker.Credentials{Client: "client1", RequestID: "r", IP: "10.0.0.1"}
 
+// concTwoWallets is set by the scenario that is being run (one scenario at a time per process).
+var concTwoWallets bool
+
+func walletOf(k int) string {
+	if concTwoWallets && k%2 == 1 {
+		return "Wallet 2"
+	}
+	return "Wallet 1"
+}
+
 func runReq(ctx context.Context, rl ruler.Service, keys [][]byte, r CReq) []bool {
 	var action string
 	var data []*ruler.RulesData
@@ -215,20 +227,20 @@ func runReq(ctx context.Context, rl ruler.Service, keys [][]byte, r CReq) []bool
 	case "att", "atts", "atts-nokey", "atts-nildata", "atts-longkey":
 		action = ruler.ActionSignBeaconAttestation
 		for i, k := range r.Keys {
-			data = append(data, &ruler.RulesData{WalletName: "Wallet 1", AccountName: fmt.Sprintf("acct-%d", k), PubKey: keys[k],
+			data = append(data, &ruler.RulesData{WalletName: walletOf(k), AccountName: fmt.Sprintf("acct-%d", k), PubKey: keys[k],
 				Data: &rules.SignBeaconAttestationData{Domain: AttDomain(0), Slot: r.T[i] * 32, BeaconBlockRoot: pat(1),
 					Source: &rules.Checkpoint{Epoch: r.S[i], Root: pat(2)}, Target: &rules.Checkpoint{Epoch: r.T[i], Root: pat(3)}}})
 		}
 	case "prop":
 		action = ruler.ActionSignBeaconProposal
-		data = append(data, &ruler.RulesData{WalletName: "Wallet 1", AccountName: fmt.Sprintf("acct-%d", r.Keys[0]), PubKey: keys[r.Keys[0]],
+		data = append(data, &ruler.RulesData{WalletName: walletOf(r.Keys[0]), AccountName: fmt.Sprintf("acct-%d", r.Keys[0]), PubKey: keys[r.Keys[0]],
 			Data: &rules.SignBeaconProposalData{Domain: PropDomain(0), Slot: r.Slot, ParentRoot: pat(1), StateRoot: pat(2), BodyRoot: pat(3)}})
 	case "sign", "signs", "signs-longkey":
 		action = ruler.ActionSign
 		for _, k := range r.Keys {
 			dom := make([]byte, 32)
 			dom[0] = 7
-			data = append(data, &ruler.RulesData{WalletName: "Wallet 1", AccountName: fmt.Sprintf("acct-%d", k), PubKey: keys[k],
+			data = append(data, &ruler.RulesData{WalletName: walletOf(k), AccountName: fmt.Sprintf("acct-%d", k), PubKey: keys[k],
 				Data: &rules.SignData{Domain: dom, Data: pat(9)}})
 		}
 	}
@@ -417,6 +429,7 @@ func (e *concEnv) mkScenario(cs CScenario, lockOnly bool, wantLinearizable bool)
 			panic(err)
 		}
 		keys := e.freshKeys(nkeys, cs.DescKeys)
+		concTwoWallets = cs.TwoWallets
 		warmLocker(lk, cs.WarmKeys)
 		for _, g := range cs.Garbage {
 			if err := e.rules.VerifRawPut(ctx, append(append([]byte{}, keys[g]...), 0x02), []byte{0x7f, 0x03, 0xff, 0x00, 0x12}); err != nil {
